@@ -521,6 +521,7 @@ def part_from_matchfile(
     t = float(beats_to_quarters(min_time))
     offset = t
     bar_times = {}
+    bar_first_onsets = {}
 
     if t > 0:
         # if we have an incomplete first measure that isn't an anacrusis
@@ -560,6 +561,7 @@ def part_from_matchfile(
             onset_in_quarters[a_note_id_in_this_bar] - bar_offset - beat_offset
         )
         bar_times[b_name] = barline_in_quarters
+        bar_first_onsets[b_name] = a_note_in_this_bar.OnsetInBeats
 
     for ni, note in enumerate(snotes):
         # start of bar in quarter units
@@ -780,12 +782,16 @@ def part_from_matchfile(
             part.add(prev_measure, None, barline_in_divs)
         prev_measure = score.Measure(number=measure_counter + 1, name=str(measure_name))
         part.add(prev_measure, barline_in_divs)
+    # the last bar is as long as the time signature in force at its first
+    # note says (looked up in beats: the reconstructed bar line can lie a
+    # rounding error before a time signature change that starts the bar)
+    last_bar_onset = bar_first_onsets[measure_name]
     last_closing_barline = barline_in_divs + int(
         round(
             divs
-            * beats_map(barline_in_quarters)
+            * beats_map_from_beats(last_bar_onset)
             * 4
-            / beat_type_map(barline_in_quarters)
+            / beat_type_map_from_beats(last_bar_onset)
         )
     )
     part.add(prev_measure, None, last_closing_barline)
